@@ -17,7 +17,7 @@ def render_table_group(model: TableGroup) -> str:
     result += ' {\n'
     for i in model.items:
         result += f'    {get_full_name_for_dbml(i)}\n'
-    if model.note:
+    if model.note is not None:
         result += indent(model.note.dbml, '    ') + '\n'
     result += '}'
     return result
